@@ -11,7 +11,7 @@ import numpy as np
 from ..case import Case
 from .. import spec
 from .common import (gt, fields, invariant_claims, declare_factor, make_factor, factor_spec_params, make_cond, spec_eval_ln)
-from .condprops import cond_decl, prior_decl
+from .condprops import cond_decl, prior_decl, make_prior
 from .c02 import _inv_of, _lndet_of
 
 PROP = "C04"
@@ -198,7 +198,7 @@ def trans_case(tr, kind, Dx, Dy, Rc, Rx, semi=(), timeout=600):
             c.obj.update_Sigma(A["Snew"])
             out["c"] = {"Lambda": c.obj.Lambda, "Sigma": c.obj.Sigma, "ln_det_Sigma": c.obj.ln_det_Sigma}
             return out
-        px = pdf.GaussianPDF(Sigma=A["Sx"], mu=A["mx"])
+        px = make_prior(A)
         if tr == "joint":
             out["r"] = fields(c.affine_joint_transformation(px))
         elif tr == "marginal":
